@@ -52,6 +52,11 @@ def gen_case(rng, spec, idx):
         return {'net': net, 'c_reuse': False, 'strip_forks': False, 'sims': 16, 'stim': 'exh', 'stim_seed': 0, 'cycles': 0, 'allprims': True, 'cbpath': True}
     feats = [f for f in FEATS if rng.random() < 0.3]
     big = spec.get('max_gates', 60)
+    if idx in (1, 2):
+        # beyond the usual sizes: hundreds of gates (more than 255 / 1024 lines), deep (few inputs) or wide, dozens of state elements, > 256 patterns
+        net = G.gen_net(rng, feats=feats, n_gates=rng.choice([300, 700]), n_in=rng.choice([2, 3, 12, 40]), n_ff=rng.choice([0, 9, 40]), n_out=rng.choice([3, 20]))
+        return {'net': net, 'c_reuse': rng.random() < 0.5, 'strip_forks': rng.random() < 0.5, 'sims': rng.choice([129, 256, 257, 520, 1030]),
+                'stim': 'rand', 'stim_seed': rng.randrange(1 << 30), 'cycles': rng.choice([0, 2]) if net['ffs'] else 0, 'feats': feats, 'cbpath': rng.random() < 0.3, 'large': True}
     net = G.gen_net(rng, feats=feats, max_gates=big)
     nsrc = len(net['inputs']) + len(net['ffs'])
     exh = nsrc <= 10 and rng.random() < 0.4
@@ -101,6 +106,10 @@ def check_case(case, ctx):
     depth, stems = G.structure_stats(net)
     key = [G.net_text(net), case['c_reuse'], case['strip_forks'], n, case['stim'], case['stim_seed'], case['cycles']]
     ctx.case(case, depth >= 2 and stems >= 1, key=key)
+    if case.get('large'):
+        ctx.count('large_cases')
+        ctx.count('large_case_gates', len(net['gates']))
+        ctx.hit('large_pattern_counts', str(n))
     for g in net['gates']:
         ctx.hit('prims', G.canonical(g['fam'], g['ins'])[0])
     ctx.count('cases/c_reuse', case['c_reuse'])
